@@ -124,6 +124,7 @@ Eff <- G_Eff
 MaxCalls = %d
 MaxDeep = %d
 Dups = {%s}
+DeepAny = %s
 INIT Init
 NEXT Next
 %s
@@ -251,15 +252,24 @@ def run(tier: str, prop: str = "C01") -> int:
     meas = {sid: measure(fams[fname], sname) for sid, fname, sname in scens}
     dups = '"copy", "deepcopy", "pickle"' if prop == "C15" else ""
     maxcalls, maxdeep = (2, 3)
+    deepany = "FALSE"
+    if prop == "C15":
+        # duplication histories: [dup, call], [call, dup] everywhere; [call, dup, call] on the "full" seeds (thorough)
+        maxcalls, maxdeep = (2, 3 if tier == "thorough" else 2)
+        deepany = "TRUE" if tier == "thorough" else "FALSE"
+        if tier == "thorough":
+            scens = [s for s in scens if s[2] in ("full", "upsert", "one", "filtered", "alias", "cmp", "on", "cols", "union", "drop", "load")]
+        # every history of interest contains a duplication step
+
     # 1. design: with the intended tables Frozen is an invariant of the protocol
-    r0 = tlc.run("MC_SharingGen", CFG % (maxcalls, maxdeep, dups, "INVARIANT Frozen"),
+    r0 = tlc.run("MC_SharingGen", CFG % (maxcalls, maxdeep, dups, deepany, "INVARIANT Frozen"),
                  extra_files={"MC_SharingGen.tla": tables_module(scens, meas, True)}, workers=16, heap="8g", timeout=3000)
     rep.add_tlc(r0)
     _t("intended model checked")
     if r0.violation or not r0.ok:
         raise core.MachineryError(f"Frozen fails on the INTENDED sharing tables (spec bug): {r0.violation}\n{r0.raw_tail[-1500:]}")
     # 2. observed tables: histories + the model's predictions
-    r1 = tlc.run("MC_SharingGen", CFG % (maxcalls, maxdeep, dups, "INVARIANT Emit"),
+    r1 = tlc.run("MC_SharingGen", CFG % (maxcalls, maxdeep, dups, deepany, "INVARIANT Emit"),
                  extra_files={"MC_SharingGen.tla": tables_module(scens, meas, False)}, workers=16, heap="8g", timeout=3000)
     rep.add_tlc(r1)
     _t("observed model explored")
@@ -270,6 +280,8 @@ def run(tier: str, prop: str = "C01") -> int:
     jobs, pred = [], {}
     for h in hs:
         if not h["h"]:
+            continue
+        if prop == "C15" and not any(st["l"] in ("copy", "deepcopy", "pickle") for st in h["h"]):
             continue
         sid, fname, sname = by[h["s"]]
         tid = len(jobs)
@@ -301,6 +313,12 @@ def run(tier: str, prop: str = "C01") -> int:
         e = events[tid]
         _, sid, fname, sname, hist = jobs[tid]
         for step, victim, kind in bad[tid]:
+            if kind in ("dup-raises", "dup-differs"):
+                cls = type(_fams()[fname].seeds[sname]()).__name__
+                rep.discrepancy([[kind, cls, hist[step - 1]["l"]]], {"scenario": sid, "history": hist, "step": step,
+                                                                      "exc": e["steps"][step - 1]["exc"]},
+                                what="duplicate raises or is not observed like its original")
+                continue
             if kind != "changed":
                 rep.discrepancy([[kind, fname.split("_")[0], hist[step - 1]["l"]]], {"scenario": sid, "history": hist, "step": step},
                                 what="a builder call did not return a new object")
@@ -309,7 +327,12 @@ def run(tier: str, prop: str = "C01") -> int:
             if det is None:
                 raise core.MachineryError(f"judge and executor disagree on event {tid}")
             role = "receiver" if victim == det["recv"] else "other"
-            rep.discrepancy([[det["cls"], det["meth"]]],
+            sig = [det["cls"], det["meth"]]
+            if prop == "C15":
+                # which duplication mechanism coupled the two objects
+                how = next((st["l"] for st in hist if st["l"] in ("copy", "deepcopy", "pickle")), "?")
+                sig = [how, det["cls"], det["meth"]]
+            rep.discrepancy([sig],
                             {"scenario": sid, "history": hist, "step": step, "victim": victim, "victim_is": role,
                              "changed": det["keys"], "before": det["before"], "after": det["after"]},
                             what=f"{det['cls']}.{det['meth']} alters an earlier object")
